@@ -148,7 +148,8 @@ def parse_out(text):
     for line in text.splitlines():
         sp = line.split(" ", 1)
         if len(sp) == 2 and sp[0].isdigit():
-            res[int(sp[0])] = sp[1].strip()
+            # a trailing ` #key=value…` annotation (e.g. number of call forms evaluated) is not compared
+            res[int(sp[0])] = sp[1].split(" #", 1)[0].strip()
     return res
 
 
